@@ -388,9 +388,11 @@ func TestC18History(t *testing.T) {
 	rec := kit.NewRecorder(t, "C18")
 	opt := kit.HistOpt{
 		MinSteps: 1, MaxSteps: 8,
-		PacketW: 15, AdminW: 85, EnvW: 0,
+		PacketW: 15, AdminW: 75, EnvW: 10,
 		Packet: func(rt *rapid.T) kit.Transfer { return genC08Probe(rt, w) },
 		Admin:  kit.AdminOpt{Kinds: []string{"update_params"}, ForeignSignerPct: 15},
+		// the chain moves on, and is upgraded in place (the module's registered migrations run)
+		Env: kit.EnvOpt{Kinds: []string{"next_block", "upgrade", "upgrade"}},
 	}
 	rapid.Check(t, func(rt *rapid.T) {
 		c := caseC18{History: kit.GenHistory(rt, opt)}
